@@ -23,6 +23,16 @@ literal; mapranges.go refuses a sort whose comparator does not compare element i
 (order of api.Generate's statements). Proved (Props/C18Run.lean): a proper comparator is the sort of the order model, a
 comparator over one index sorts nothing; with the regenerated step order a run does not depend on the previous exec / models
 output (Model/Regenerate.lean). Tie: types declared by the real models file after each run vs `driver_c18 gen2`.
+
+Round 4: project dimensions modular (follow-schema exec over several schema files in several directories, base names shared
+between directories, object-free files, directives with arguments in some of them, schema lists / globs, filename_template)
+and extrafields (`models.<T>.extraFields` / embedExtraFields / @goExtraField with several entries). Regenerated:
+`Gen/PerSchemaSteps.lean` (the passes of codegen.generatePerSchema in source order, slice or map pass). Proved
+(Props/C18Layout.lean): with the slice passes first, the source every per-file build is pinned to - hence the directive
+functions each generated file holds - does not depend on map order when every shared output file holds an object or input
+(the uncovered case is open finding F18b, with witness); the extra fields of a model come out sorted whatever the map order.
+Ties: `driver_c18 pins` on every follow-schema project's summary under several delivery orders (Spec: one outcome) vs the
+dir_<name>_args functions in the really generated files; `driver_c18 xf` vs the extra fields of the real structs.
 """
 import difflib
 import os
@@ -130,10 +140,11 @@ def run(ctx):
         "Go's sort.Slice is modelled by a merge sort; on lists with pairwise distinct keys (GraphQL type names) every correct sort returns the same list",
         "maps ranged over by text/template are visited in sorted key order (text/template contract)",
         "cycle-pass model (Model/CyclePass.lean): struct names are compared as Go names; templates.ToGo is the identity on the names the relations projects use",
+        "per-file builds (Model/PerSchema.lean): a build is reduced to the one source addBuild pins it to; the output name of an element is the base name of its schema file put into exec.filename_template; data.Objects / data.Inputs are delivered sorted by name (BuildData's sort, inventory); tied to the real generator by the dir_<name>_args functions of the generated files of every follow-schema project",
         "import-table model (Model/Imports.lean): the imports internal/rewrite reads back from an existing resolver file are a subset of the first rendering's table with the alias Import.String printed; tied to the real generator only by the bound-package projects (imports dimension)",
     ]
-    ok_extract = ctx.extract("Keywords", "MapRanges", "ResolverImports", "SortComparators", "GenerateSteps")
-    proved = ok_extract and ctx.prove(props=["GqlgenVerif.Props.C18", "GqlgenVerif.Props.C18Regen", "GqlgenVerif.Props.C18Run"])
+    ok_extract = ctx.extract("Keywords", "MapRanges", "ResolverImports", "SortComparators", "GenerateSteps", "PerSchemaSteps")
+    proved = ok_extract and ctx.prove(props=["GqlgenVerif.Props.C18", "GqlgenVerif.Props.C18Regen", "GqlgenVerif.Props.C18Run", "GqlgenVerif.Props.C18Layout"])
     gen_file = os.path.join(vf.LEAN, "GqlgenVerif", "Gen", "MapRanges.lean")
     sites = []
     if os.path.exists(gen_file):
@@ -204,7 +215,8 @@ def run(ctx):
     fed_opts = ["explicit_requires", "computed_requires", "", None]     # the first projects cover every option, then random
     for dim, gen, n in (("rel", c18proj.relations, 3 if quick else 12), ("imp", c18proj.imports, 4 if quick else 14),
                         ("lit", c18proj.literals, 1 if quick else 4), ("fed", c18proj.federation, 4 if quick else 12),
-                        ("ab", c18proj.autobind, 4 if quick else 12)):
+                        ("ab", c18proj.autobind, 4 if quick else 12), ("mod", c18proj.modular, 4 if quick else 12),
+                        ("xf", c18proj.extrafields, 2 if quick else 6)):
         for i in range(n):
             name = "c18%s%d" % (dim, i)
             if dim == "rel":
@@ -216,6 +228,13 @@ def run(ctx):
             c18proj.write(root, name, proj, pkg_prefix)
             meta[name] = proj["meta"]
             projects.append(name)
+
+    # what generatePerSchema sees of each follow-schema project (derived from the project's files)
+    layouts = {}
+    for p in projects:
+        L = c18proj.layout_summary(os.path.join(root, p))
+        if L:
+            layouts[p] = L
 
     # (GOMAXPROCS, start dir, wipe generated files first?)
     plan = [(1, "", True), (4, "res", False), (16, "sub/deep", True), (2, "sub", False)]
@@ -297,6 +316,12 @@ def run(ctx):
             added = [l[1:].strip() for l in excerpt if l.startswith("+") and not l.startswith("+++")]
             removed = [l for l in excerpt if l.startswith("-") and not l.startswith("---")]
             shape = {"kind": kind, "file": os.path.basename(f0)}
+            L_ = layouts.get(p)
+            if L_ and L_["uncovered"]:
+                # several schema files of one base name, none of which holds an object or input type (open finding F18b)
+                unc = {os.path.normpath(os.path.join(L_["exec_dir"], f)) for f in L_["uncovered"]}
+                shape.update({"same_basename_schema_files_without_object_or_input": True,
+                              "differs_only_in_their_output": set(diff_files) <= unc})
             if kind == "idempotence":
                 only_warning = (not removed and len(diff_files) == 1 and any("!!! WARNING !!!" in l for l in added)
                                 and [l for l in added if l and not l.startswith("//") and l not in ("/*", "*/")] == ["type Resolver struct{}"])
@@ -495,6 +520,116 @@ def run(ctx):
                                    p, mf, got, line, exp if exp is not None else "a failing run")}, no_failing_input=True)
                 break
 
+    # ------------------------------------------------------------ per-file builds of the follow-schema executor: the model over the
+    # regenerated order of generatePerSchema's passes, map passes delivered in several orders, vs the directive functions really written
+    layout_cmp = layout_files = 0
+    ps_file = os.path.join(vf.LEAN, "GqlgenVerif", "Gen", "PerSchemaSteps.lean")
+    pass_order = re.findall(r'⟨"(\w+)", \.(\w+), \w+⟩', open(ps_file).read()) if os.path.exists(ps_file) else []
+    FUNC_RE = re.compile(r"^func (?:\(ec \*executionContext\) )?dir_(\w+)_args\(", re.M)
+    for p in projects:
+        L = layouts.get(p)
+        if results[p][0] is None or not have_model or not L:
+            continue
+        base = L["passes"]
+        orders = [("sources as listed", base)]
+        for label, key in (("maps reversed", None),) + tuple(("elements of %s first" % s_, s_) for s_ in L["sources"][:8]):
+            q = dict(base)
+            for k in ("addInterfaces", "addReferencedTypes"):
+                q[k] = base[k][::-1] if key is None else [e for e in base[k] if e[1] == key] + [e for e in base[k] if e[1] != key]
+            orders.append((label, q))
+        dirs_arg = ",".join("%s@%s" % x for x in L["argdirs"]) or "-"
+        lines = ["pins %s %s %s" % (";".join("%s=%s" % (k, ",".join("%s@%s" % e for e in v)) for k, v in q.items()), dirs_arg, ",".join(L["outputs"]))
+                 for _, q in orders]
+        outs = ctx.driver("c18", lines)
+        layout_cmp += 1
+        outcomes = {f: {} for f in L["outputs"]}
+        bad_out = None
+        for (label, _), out in zip(orders, outs):
+            mm = re.match(r"covered=([01]) (.*)$", out)
+            if not mm:
+                bad_out = out
+                break
+            for part in mm.group(2).split(";"):
+                f, _, rest = part.partition("=")
+                pin, _, ds = rest.partition(":")
+                outcomes[f].setdefault((pin, tuple(sorted(x for x in ds.split(",") if x))), label)
+        if bad_out is not None:
+            ctx.violation({"kind": "model", "what": "driver_c18 pins answered " + bad_out, "project": p}, no_failing_input=True)
+            continue
+        inp = {f: open(os.path.join(root, p, f)).read() for f in ["gqlgen.yml"] + L["sources"]}
+        for f in L["outputs"]:
+            funcs = {ds for (_, ds) in outcomes[f]}
+            if len(funcs) > 1:
+                # the Spec (one output whatever order the maps are delivered in) evaluated on the model with the regenerated pass order
+                unc = f in L["uncovered"]
+                ctx.violation({"kind": "layout-model", "project": p, "output_file": f,
+                               "outcomes": [{"map_delivery_order": lab, "build_pinned_to": pin, "directive_arg_functions_in_the_file": list(ds)}
+                                            for (pin, ds), lab in outcomes[f].items()],
+                               "passes_in_source_order": pass_order, "input": inp,
+                               "shape": {"kind": "determinism", "model": "PerSchema", "file": f,
+                                         "same_basename_schema_files_without_object_or_input": unc, "differs_only_in_their_output": unc},
+                               "replay": "project %s (directory go/genout/c18/%s, files in `input`): with generatePerSchema's passes in the order regenerated from "
+                                         "codegen/generate.go (Gen/PerSchemaSteps.lean) the build of %s is pinned to %s depending on the order in which "
+                                         "data.Interfaces / data.ReferencedTypes are delivered, so the file holds the dir_<name>_args functions %s "
+                                         "(driver_c18 `%s`)" % (p, p, f, " or ".join(sorted({pin for (pin, _) in outcomes[f]})),
+                                                                " or ".join(str(list(x)) for x in sorted(funcs)), lines[1][:300])})
+        for r in results[p][0]:
+            if r.get("failed") or not r.get("_text"):
+                continue
+            for f in L["outputs"]:
+                text = r["_text"].get(os.path.normpath(os.path.join(L["exec_dir"], f)))
+                if text is None:
+                    continue
+                layout_files += 1
+                got = tuple(sorted(set(FUNC_RE.findall(text))))
+                allowed = {ds for (_, ds) in outcomes[f]}
+                if got not in allowed:
+                    ctx.violation({"kind": "correspondence", "project": p, "output_file": f,
+                                   "what": "directive argument functions in a generated per-schema file vs the build model of generatePerSchema",
+                                   "generated_file_holds": list(got), "model_allows": [list(x) for x in sorted(allowed)], "input": inp,
+                                   "run": {k: v for k, v in r.items() if k in ("GOMAXPROCS", "start", "clean_tree")},
+                                   "replay": "project %s: %s holds dir_*_args for %s; Model/PerSchema.lean over Gen/PerSchemaSteps.lean (driver_c18 `%s`) allows %s" % (
+                                       p, f, list(got), lines[0][:300], [list(x) for x in sorted(allowed)])}, no_failing_input=True)
+                    break
+
+    # ------------------------------------------------------------ extra struct fields of the generated models vs the sort model
+    xf_cmp = xf_structs = 0
+    for p in projects:
+        if results[p][0] is None or not have_model:
+            continue
+        xs = c18proj.extra_summary(os.path.join(root, p), pkg_prefix + "/" + p)
+        if not xs:
+            continue
+        lines = ["xf %s %s" % (",".join("%s/%s" % nt for nt in x["named"]) or "-", ",".join(x["embedded"]) or "-") for x in xs]
+        preds = ctx.driver("c18", lines)
+        xf_cmp += 1
+        mf = re.search(r"^model:\n  filename: (\S+)", open(os.path.join(root, p, "gqlgen.yml")).read(), re.M).group(1)
+        short = lambda t: re.sub(r"[\w.\-]+/", "", t)        # import path -> package qualifier
+        done = False
+        for r in results[p][0]:
+            text = r.get("_text", {}).get(mf)
+            if text is None or done:
+                continue
+            for x, pred in zip(xs, preds):
+                want = [short(t[1:]) if t.startswith("~") else t for t in pred.split(",") if t]
+                sm = re.search(r"^type %s struct \{\n(.*?)^\}" % re.escape(x["type"]), text, re.M | re.S)
+                if not sm:
+                    continue
+                xf_structs += 1
+                toks = [l.split()[0] for l in sm.group(1).split("\n") if l.strip() and not l.strip().startswith("//")]
+                got = [t for t in toks if t in set(want)]
+                if got != want:
+                    done = True
+                    ctx.violation({"kind": "extra-field-order", "project": p, "struct": x["type"], "extra_fields_in_generated_struct": got,
+                                   "model": want, "configured": {"named": dict(x["named"]), "embedded": x["embedded"]},
+                                   "run": {k: v for k, v in r.items() if k in ("GOMAXPROCS", "start", "clean_tree")},
+                                   "input": {f: open(os.path.join(root, p, f)).read() for f in ("schema.graphql", "gqlgen.yml")},
+                                   "shape": {"kind": "extra-field-order"},
+                                   "replay": "project %s (directory go/genout/c18/%s): %s declares the extra fields of %s in the order %s; getExtraFields sorts them "
+                                             "(named by name, embedded last by type: Model/ExtraFields.lean, driver_c18 `%s`) into %s" % (
+                                                 p, p, mf, x["type"], got, lines[xs.index(x)][:200], want)})
+                    break
+
     # ------------------------------------------------------------ broken proof
     if ok_extract and not proved:
         found = any(not nf for _, nf in ctx.violations)
@@ -527,7 +662,10 @@ def run(ctx):
 
     cls = Counter(s["class"] for s in sites)
     ctx.cov.update({
-        "evaluations": total_runs + order_cmp + ptr_cmp + regen_cases + regen_cmp,
+        "evaluations": total_runs + order_cmp + ptr_cmp + regen_cases + regen_cmp + layout_cmp + xf_cmp,
+        "per_schema_build_comparisons": {"projects": layout_cmp, "generated_files": layout_files,
+                                         "projects_with_shared_base_names": len([p for p in layouts if layouts[p]["shared"] and results[p][0] is not None])},
+        "extra_field_order_comparisons": {"projects": xf_cmp, "structs": xf_structs},
         "regeneration_model_comparisons": regen_cmp,
         "pointer_decision_comparisons": {"projects": ptr_cmp, "struct_fields": ptr_fields},
         "import_alias_regeneration_cases": regen_cases,
